@@ -91,6 +91,7 @@ func VerifyFunc(p *Program, key string, fn *ssa.Function, k *Contract) *FuncResu
 	e.rootKey = key
 	e.safety = k.Safety
 	e.blocking = k.Blocking
+	e.atMatched = map[*AtClause]bool{}
 	c := e.c
 	e.entry = NewState()
 	fr := e.newFrame(fn, nil)
@@ -281,6 +282,13 @@ func VerifyFunc(p *Program, key string, fn *ssa.Function, k *Contract) *FuncResu
 			}
 		}
 		e.obls = keep
+	}
+	c.checkCounters()
+	for _, at := range k.At {
+		// an at-clause that matches no call site checks nothing: contract error
+		if !e.atMatched[at] && !strings.HasSuffix(at.Callee, "*") {
+			c.Unsupported("at %s %s: the function contains no such call", at.Callee, at.Kind)
+		}
 	}
 	return &FuncResult{Key: key, Contract: k, Obls: e.obls, Ctx: c, Unsupported: c.unsupported, CallLog: e.callLog}
 }
